@@ -45,9 +45,15 @@ def r1_case_fold_before_keying(ctx: Ctx) -> None:
         ctx.check(ok, f"{fname}:accept-set", f"accepts every letter in both cases; sets {emitting}")
     for fname in ("accept_opcode", "lex_opcode"):
         fn = ctx.repo.func(SST, fname)
-        cands = [n for n in walk_no_nested(fn.node) if isinstance(n, ast.Assign) and unparse(n.targets[0]) == "opcode_candidate"]
-        ok = len(cands) == 1 and unparse(cands[0].value).endswith(".lower()")
-        ctx.check(ok, f"{fname}:mnemonic-match", "the candidate text is lower-cased before it is looked up among the mnemonics")
+        # whatever is looked up among the mnemonics (`X in opcodes...` / `X in snes_opcode_table`), through a local or not, ends in .lower()
+        from ..match import canon as _cn16a
+
+        keys = [_cn16a(fn.node, n.left) for n in walk_no_nested(fn.node) if isinstance(n, ast.Compare) and len(n.ops) == 1 and isinstance(n.ops[0], (ast.In, ast.NotIn))
+                and (unparse(n.comparators[0]) in ("opcodes", "opcodes_without_operand", "snes_opcode_table", "snes_opcode_table.keys()")
+                     or "s.input[" in _cn16a(fn.node, n.left) or "current_token_text()" in _cn16a(fn.node, n.left))]  # the source text looked up in any table
+        if not keys:
+            raise AnalysisError(f"{fname}: no membership test against the mnemonic table found")
+        ctx.check(all(k.endswith(".lower()") for k in keys), f"{fname}:mnemonic-match", f"the candidate text is lower-cased before it is looked up among the mnemonics; looked up: {keys}")
     # (b) the parser folds before the text becomes a key
     for fname in ("parse_opcode", "parse_operand_and_addressing"):
         fn = ctx.repo.func(PST, fname)
